@@ -534,8 +534,13 @@ func (b *skBuilder) callCmd(c *ast.CallExpr, kind string) *cmd {
 		return nil
 	}
 	var alts []*cmd
+	viaIface := b.byObj[callee] == nil
 	for _, t := range targets {
-		alts = append(alts, b.refTo(t))
+		r := b.refTo(t)
+		if viaIface {
+			r.op = "icallsk" // dynamically dispatched: assumed not to change the caller's lock state
+		}
+		alts = append(alts, r)
 	}
 	call := altOf(alts)
 	if kind == "go" || kind == "defer" {
@@ -582,10 +587,13 @@ func (e *skEmitter) render(c *cmd) string {
 		c.row.Occ = e.occ
 		e.occ++
 		return fmt.Sprintf("(.acc %d)", c.row.Occ)
-	case "callsk":
+	case "callsk", "icallsk":
 		t := skRefs[c.lock].target
 		if t.idx < 0 {
 			return ".skip"
+		}
+		if c.op == "icallsk" {
+			return fmt.Sprintf("(.icall %d)", t.idx)
 		}
 		return fmt.Sprintf("(.call %d)", t.idx)
 	case "ret":
